@@ -371,7 +371,7 @@ loop:
 		}
 	}
 	evs := r.snapshot()
-	return evs, kernelVerdict(mode, scripts, evs, sub.IsClosed(), atomic.LoadInt32(&r.maxInside), atomic.LoadInt32(&r.waitEarly) != 0)
+	return evs, kernelVerdict(mode, scripts, evs, sub.IsClosed(), atomic.LoadInt32(&r.maxInside), atomic.LoadInt32(&r.waitEarly) != 0, destKind == "nil")
 }
 
 func (r *kRun) snapshot() []kEv {
@@ -391,7 +391,7 @@ func tokProduces(tok string) bool {
 }
 
 // kernelVerdict mirrors lean/RoModel/Drivers/Kernel.lean `verdict` / Kernel/Preds.lean.
-func kernelVerdict(mode string, scripts [][]kCall, evs []kEv, closedAtEnd bool, maxInside int32, waitEarly bool) string {
+func kernelVerdict(mode string, scripts [][]kCall, evs []kEv, closedAtEnd bool, maxInside int32, waitEarly bool, destNil bool) string {
 	producers := 0
 	for _, sc := range scripts {
 		for _, k := range sc {
@@ -483,6 +483,29 @@ func kernelVerdict(mode string, scripts [][]kCall, evs []kEv, closedAtEnd bool, 
 	}
 	if waitEarly {
 		return "wait-early"
+	}
+	// C07 (Kernel.terminalLog): a terminal call that returned on a subscriber nobody unsubscribed was delivered
+	if !destNil {
+		termRet, unsub, termBegin := false, false, false
+		for _, e := range evs {
+			switch e.typ {
+			case 'r':
+				if e.tok == "C" || strings.HasPrefix(e.tok, "E") {
+					termRet = true
+				}
+			case 'c':
+				if e.tok == "U" {
+					unsub = true
+				}
+			case 'b':
+				if e.tok[0] != 'N' {
+					termBegin = true
+				}
+			}
+		}
+		if termRet && !unsub && !termBegin {
+			return "terminal-lost"
+		}
 	}
 	return "ok"
 }
